@@ -169,6 +169,17 @@ pub fn link_ast(sb: &Sandbox, core_paths: &[String], entropy: u64) -> Result<(co
     }
 }
 
+/// A case named `…+symlink:<file>` keeps that source file elsewhere and has a symbolic link in
+/// its place (a shared or vendored file): both pipelines must still see it.
+fn link_out(sb: &Sandbox, case_name: &str) {
+    let Some(rel) = case_name.split("+symlink:").nth(1) else { return };
+    let Some(bytes) = sb.read(rel) else { return };
+    let target = format!("zz_linked/{}.txt", rel.replace('/', "__"));
+    sb.write(&target, &bytes);
+    sb.remove(rel);
+    let _ = std::os::unix::fs::symlink(sb.path(&target), sb.path(rel));
+}
+
 pub fn cases(opts: &Opts) -> Vec<Case> {
     let mut out: Vec<Case> = Vec::new();
     for c in ops::corpus() {
@@ -197,6 +208,12 @@ pub fn cases(opts: &Opts) -> Vec<Case> {
                 files.insert("main.gom".to_string(), t.into_bytes());
                 files.insert("Main.gom".to_string(), b"package Main\n\nfn zz_twin() -> int32 {\n    41\n}\n".to_vec());
                 name.push_str("+case-twin");
+            }
+        }
+        if i % 7 == 4 {
+            // one source file that is not the entry file is a symbolic link
+            if let Some(f) = files.keys().filter(|f| f.ends_with(".gom") && *f != "main.gom").nth(p.usize(4) % files.len().max(1)).or_else(|| files.keys().find(|f| f.ends_with(".gom") && *f != "main.gom")) {
+                name.push_str(&format!("+symlink:{f}"));
             }
         }
         out.push(Case { name, files, predicted });
@@ -232,6 +249,7 @@ pub fn check_case(sb: &Sandbox, seed: u64, idx: usize, case: &Case, nsched: usiz
     let layout = Layout::scan(&case.files);
     r.multi = layout.pkgs.len() >= 2;
     sb.materialise(&case.files);
+    link_out(sb, &case.name);
     // whole-program side
     let spec = ProcSpec { entropy: mix(&[seed, idx as u64, 1]), readdir: mix(&[seed, idx as u64, 2]), ..Default::default() };
     let (wsum, wcompiled, _) = ops::run_main(sb, &spec, false);
@@ -280,6 +298,7 @@ pub fn check_case(sb: &Sandbox, seed: u64, idx: usize, case: &Case, nsched: usiz
     for k in 0..nsched {
         let sseed = replay_sched.unwrap_or_else(|| mix(&[seed, idx as u64, k as u64, purpose("c14-schedule")]));
         sb.materialise(&case.files);
+        link_out(sb, &case.name);
         let Some(sep) = separate(sb, &layout, &SepSchedule { seed: sseed }) else {
             // cyclic / missing imports: no build plan exists; whole-program must reject too
             if whole_ok {
